@@ -887,14 +887,25 @@ def check_c11(tier):
                         k = line.find(tok, k + 1)
                 positions.add((ln, len(line) + 5))
             positions |= {(len(vtext.split("\n")) + 3, 0), (4294967295, 4294967295), (0, 0), (0, 4294967295)}
+            # every request once on the VALID text first: whatever the handlers cache per document (parsed module, line
+            # index, per-file fixture view) is warm when the unparsable version arrives
+            n_req = all_requests(srv, tpath, sorted(positions)[:12])
             srv.did_change(tpath, btext, version=2)
-            n_req = all_requests(srv, tpath, sorted(positions))
+            n_req += all_requests(srv, tpath, sorted(positions))
             # stale diagnostics handed back for a quick fix
             for d in diags[:3]:
                 srv.request("textDocument/codeAction", {"textDocument": {"uri": lsp.path_to_uri(tpath)}, "range": d["range"],
                                                         "context": {"diagnostics": [d]}})
             # and back to the valid text: the server keeps serving
             srv.did_change(tpath, vtext, version=3)
+            r = srv.pos_request("textDocument/definition", tpath, 0, 0)
+            # the conftest.py ABOVE the document goes through the same history while the document is queried
+            srv.did_open(cpath, HOST_CONFTEST)
+            n_req += all_requests(srv, tpath, sorted(positions)[:6])
+            srv.did_change(cpath, HOST_CONFTEST + "\n\ndef broken(:\n    pass\n", version=2)
+            n_req += all_requests(srv, tpath, sorted(positions)[:12])
+            n_req += all_requests(srv, cpath, [(4, 4), (0, 0), (40, 2)])
+            srv.did_change(cpath, HOST_CONFTEST, version=3)
             r = srv.pos_request("textDocument/definition", tpath, 0, 0)
             return {"requests": n_req, "alive": srv.alive()}
         except (lsp.ServerDied, lsp.Timeout) as e:
